@@ -325,7 +325,7 @@ func (o *Obligation) emit(p *Prelude, noCOI bool, lean bool) string {
 				continue
 			}
 			vs, _ := getVars(i)
-			hit := len(vs) == 0
+			hit := len(vs) == 0 || (f.T.Op == "var" && f.T.S == BoolS)
 			for v := range vs {
 				if need[v] {
 					hit = true
